@@ -463,7 +463,7 @@ func R16ShellSink(c *Ctx) {
 // R15ErrDiscipline — a listener setting that cannot be encoded fails the build.
 func R15ErrDiscipline(c *Ctx) {
 	const rule = "R15-build-errors"
-	c.R.Rule(rule, "in PatchConfig every error from strconv.Atoi / ParseWorkingHours is tested and its failing edge returns (nil, err); Build returns false when PatchConfig fails; ParseWorkingHours packs each field masked to its width at non-overlapping shifts", 5)
+	c.R.Rule(rule, "in PatchConfig every error from strconv.Atoi / ParseWorkingHours is tested and its failing edge returns (nil, err); Build returns false when PatchConfig fails", 4)
 	fn := c.P.Func(PkgBuilder, "Builder.PatchConfig")
 	if fn == nil {
 		c.R.Anchor(rule, "builder.(*Builder).PatchConfig")
@@ -528,6 +528,44 @@ func R15ErrDiscipline(c *Ctx) {
 			c.R.Bad(rule, FuncShort(fn), construct, c.pos(call.Pos()), "the error of this conversion does not make PatchConfig fail: a setting that cannot be encoded yields a payload with a zero field")
 		}
 	})
+	// an error assigned to a variable and overwritten before anybody looked at it
+	scope := HelperClosure(fn, 2)
+	if pw := c.P.Func(PkgCommon, "ParseWorkingHours"); pw != nil {
+		scope = append(scope, HelperClosure(pw, 2)...)
+	}
+	for _, sf := range scope {
+		// calls whose error result is assigned to a named variable (not to _)
+		named := map[token.Pos]bool{}
+		if syn := sf.Syntax(); syn != nil {
+			ast.Inspect(syn, func(n ast.Node) bool {
+				as, ok := n.(*ast.AssignStmt)
+				if !ok || len(as.Rhs) != 1 || len(as.Lhs) < 2 {
+					return true
+				}
+				call, ok := as.Rhs[0].(*ast.CallExpr)
+				if !ok {
+					return true
+				}
+				if id, ok := as.Lhs[len(as.Lhs)-1].(*ast.Ident); ok && id.Name != "_" {
+					named[call.Lparen] = true
+				}
+				return true
+			})
+		}
+		for _, b := range sf.Blocks {
+			for _, in := range b.Instrs {
+				ex, ok := in.(*ssa.Extract)
+				if !ok || !isErrorType(ex.Type()) || len(*ex.Referrers()) > 0 {
+					continue
+				}
+				call, ok := ex.Tuple.(*ssa.Call)
+				if !ok || !named[call.Pos()] {
+					continue
+				}
+				c.R.Bad(rule, FuncShort(sf), "error of "+shortCallee(CalleeName(call))+" assigned and never read", c.pos(call.Pos()), "the error result is stored in a variable that is overwritten (or dropped) before it is tested: the failure it reports does not fail the build")
+			}
+		}
+	}
 	// Build: PatchConfig error -> return false
 	bd := c.P.Func(PkgBuilder, "Builder.Build")
 	if bd != nil {
@@ -565,56 +603,83 @@ func R15ErrDiscipline(c *Ctx) {
 			c.R.Bad(rule, FuncShort(bd), "PatchConfig error → Build returns false", c.pos(bd.Pos()), "Build goes on after PatchConfig failed")
 		}
 	}
+	_ = constant.MakeBool
+	_ = packages.NeedName
+}
+
+// R15WorkingHours — the working-hours word has the layout the Demon decodes.
+func R15WorkingHours(c *Ctx) {
+	const rule = "R15-working-hours"
+	c.R.Rule(rule, "every successful result of common.ParseWorkingHours, evaluated symbolically through |, <<, & and small helpers, is 1<<22 | (startHour&0x1f)<<17 | (startMin&0x3f)<<11 | (endHour&0x1f)<<6 | (endMin&0x3f): four distinct sources, each masked to its width at its own position (the word goes into the payload configuration and into the `config workinghours` task)", 1)
 	// ParseWorkingHours bit packing: (value & mask) << shift with disjoint fields
 	pw := c.P.Func(PkgCommon, "ParseWorkingHours")
 	if pw == nil {
 		c.R.Anchor(rule, "common.ParseWorkingHours")
 		return
 	}
-	type fld struct{ mask, shift int64 }
-	var flds []fld
+	// the packed word: every successful return of ParseWorkingHours, evaluated symbolically through helpers
+	construct := "working hours: hour(5)<<17 | min(6)<<11 | hour(5)<<6 | min(6) | 1<<22"
+	want := map[int]uint64{17: 0x1f, 11: 0x3f, 6: 0x1f, 0: 0x3f}
+	nRet := 0
+	problem := ""
 	for _, b := range pw.Blocks {
-		for _, in := range b.Instrs {
-			sh, ok := in.(*ssa.BinOp)
-			if !ok || sh.Op != token.SHL {
-				continue
-			}
-			s, ok := ConstInt(sh.Y)
-			if !ok {
-				continue
-			}
-			if and, ok := sh.X.(*ssa.BinOp); ok && and.Op == token.AND {
-				if m, ok := ConstInt(and.Y); ok {
-					flds = append(flds, fld{m, s})
+		ret, isRet := b.Instrs[len(b.Instrs)-1].(*ssa.Return)
+		if !isRet || len(ret.Results) != 2 || !isNilConst(ret.Results[1]) {
+			continue
+		}
+		fields, ok := bitLayout(ret.Results[0], &bitEnv{fn: pw}, 0)
+		if !ok {
+			problem = "the packed value is no longer an or/shift/mask expression the rule can evaluate"
+			continue
+		}
+		if len(fields) == 0 {
+			continue // the disabled value 0
+		}
+		nRet++
+		var used uint64
+		enabled := false
+		seenShift := map[int]string{}
+		srcs := map[string]int{}
+		for _, f := range fields {
+			bits := f.mask << uint(f.shift)
+			if f.src == "" {
+				if bits == 1<<22 {
+					enabled = true
+				} else {
+					problem = fmt.Sprintf("constant bits %#x are set besides the enabled bit", bits)
 				}
+				continue
+			}
+			if w, isField := want[f.shift]; !isField || w != f.mask {
+				problem = fmt.Sprintf("a field is packed as (v & %#x) << %d", f.mask, f.shift)
+			}
+			if used&bits != 0 {
+				problem = fmt.Sprintf("fields overlap at bits %#x", used&bits)
+			}
+			used |= bits
+			seenShift[f.shift] = f.src
+			srcs[f.src]++
+		}
+		if len(seenShift) != 4 && problem == "" {
+			problem = fmt.Sprintf("%d of the four fields are packed", len(seenShift))
+		}
+		if !enabled && problem == "" {
+			problem = "the enabled bit (1<<22) is not set"
+		}
+		for s, n := range srcs {
+			if n > 1 && problem == "" {
+				problem = "the same value (" + s + ") fills two fields"
 			}
 		}
 	}
-	// the enabled bit
-	var used int64
-	overlap := false
-	for _, f := range flds {
-		bits := f.mask << uint(f.shift)
-		if used&bits != 0 {
-			overlap = true
-		}
-		used |= bits
+	if nRet == 0 && problem == "" {
+		problem = "no successful return packs a value"
 	}
-	want := map[int64]int64{17: 0x1f, 11: 0x3f, 6: 0x1f, 0: 0x3f}
-	layoutOK := len(flds) >= 3
-	for _, f := range flds {
-		if w, ok := want[f.shift]; !ok || w != f.mask {
-			layoutOK = false
-		}
-	}
-	// shift 0 may be folded away by the SSA builder (x << 0): accept 3 explicit shifts + an unshifted AND 0x3f
-	if !overlap && layoutOK && used&(1<<22) == 0 {
-		c.R.Ok(rule, FuncShort(pw), "working hours: hour(5)<<17 | min(6)<<11 | hour(5)<<6 | min(6) | 1<<22", c.pos(pw.Pos()), "fields masked to their widths at disjoint positions below the enabled bit", true)
+	if problem == "" {
+		c.R.Ok(rule, FuncShort(pw), construct, c.pos(pw.Pos()), "fields masked to their widths at disjoint positions below the enabled bit, four distinct sources", true)
 	} else {
-		c.R.Bad(rule, FuncShort(pw), "working hours: hour(5)<<17 | min(6)<<11 | hour(5)<<6 | min(6) | 1<<22", c.pos(pw.Pos()), fmt.Sprintf("the bit layout changed (fields %v, overlap=%v)", flds, overlap))
+		c.R.Bad(rule, FuncShort(pw), construct, c.pos(pw.Pos()), "the bit layout of the working-hours word changed: "+problem)
 	}
-	_ = constant.MakeBool
-	_ = packages.NeedName
 }
 
 // R15NoCarry — per-element records of the listener part depend on their element only.
@@ -891,5 +956,164 @@ func R15CountLoop(c *Ctx) {
 				c.R.Bad(rule, fname, construct, c.pos(call.Pos()), "the announced count is the length of "+DescribeValue(counted)+" but the records are packed from "+DescribeValue(bestSlice)+": when the two differ (an element appended after the count) the Demon reads too few records and takes the next one for the following field")
 			}
 		}
+	}
+}
+
+// packTransformsAllowed: the functions a listener/operator setting may pass through on its way into a packed string
+// (confirmed by reading PatchConfig; anything else changes the configured value).
+var packTransformsAllowed = map[string]string{
+	"strings.Split":                          "host:port split",
+	"Havoc/pkg/common.GetInterfaceIpv4Addr": "an interface name is replaced by its address (documented listener feature)",
+	"fmt.Sprintf":                            "formatting",
+	"strconv.Itoa":                           "formatting",
+	"strings.Join":                           "joining list elements",
+}
+
+// R15PackVerbatim — settings are packed as configured.
+func R15PackVerbatim(c *Ctx) {
+	const rule = "R15-pack-verbatim"
+	c.R.Rule(rule, "every string PatchConfig packs (AddString/AddWString/AddBytes) that derives from a listener setting or an operator build option derives from it only through concatenation, conversions, joins and the reviewed transformations (host:port split, interface-name resolution, formatting): any other function applied on the way (trimming, case folding, replacing, …) means the payload is not built with the configured value", 10)
+	fn := c.P.Func(PkgBuilder, "Builder.PatchConfig")
+	if fn == nil {
+		c.R.Anchor(rule, "builder.(*Builder).PatchConfig")
+		return
+	}
+	isSetting := func(v ssa.Value) bool {
+		switch x := v.(type) {
+		case *ssa.FieldAddr, *ssa.Field:
+			t, _, _, ok := FieldOf(x)
+			if ok && (strings.HasPrefix(t, PkgHandlers+".") && strings.HasSuffix(t, "Config") || strings.HasSuffix(t, ".BuilderConfig") || strings.HasSuffix(t, ".Proxy")) {
+				return true
+			}
+		case *ssa.Lookup:
+			return true // b.config.Config["…"]
+		}
+		return false
+	}
+	for _, pf := range HelperClosure(fn, 1) {
+		EachCall(pf, func(ci ssa.CallInstruction) {
+			name := CalleeName(ci)
+			if !(strings.HasSuffix(name, ".AddWString") || strings.HasSuffix(name, ".AddString") || strings.HasSuffix(name, ".AddBytes")) || !strings.Contains(name, "packer.Packer") {
+				return
+			}
+			args := CallArgs(ci)
+			if len(args) != 1 {
+				return
+			}
+			var unexpected []string
+			fromSetting := false
+			seen := map[ssa.Value]bool{}
+			var walk func(v ssa.Value, depth int)
+			walk = func(v ssa.Value, depth int) {
+				if v == nil || seen[v] || depth > 50 {
+					return
+				}
+				seen[v] = true
+				if isSetting(v) {
+					fromSetting = true
+				}
+				switch x := v.(type) {
+				case *ssa.BinOp:
+					walk(x.X, depth+1)
+					walk(x.Y, depth+1)
+				case *ssa.Phi:
+					for _, e := range x.Edges {
+						walk(e, depth+1)
+					}
+				case *ssa.UnOp:
+					walk(x.X, depth+1)
+				case *ssa.FieldAddr:
+					walk(x.X, depth+1)
+				case *ssa.Field:
+					walk(x.X, depth+1)
+				case *ssa.IndexAddr:
+					walk(x.X, depth+1)
+				case *ssa.Index:
+					walk(x.X, depth+1)
+				case *ssa.Lookup:
+					walk(x.X, depth+1)
+				case *ssa.Slice:
+					walk(x.X, depth+1)
+				case *ssa.Convert:
+					walk(x.X, depth+1)
+				case *ssa.ChangeType:
+					walk(x.X, depth+1)
+				case *ssa.MakeInterface:
+					walk(x.X, depth+1)
+				case *ssa.TypeAssert:
+					walk(x.X, depth+1)
+				case *ssa.Extract:
+					walk(x.Tuple, depth+1)
+				case *ssa.Alloc:
+					for _, r := range *x.Referrers() {
+						switch st := r.(type) {
+						case *ssa.Store:
+							if st.Addr == ssa.Value(x) {
+								walk(st.Val, depth+1)
+							}
+						case *ssa.IndexAddr: // variadic argument array
+							for _, r2 := range *st.Referrers() {
+								if s2, ok := r2.(*ssa.Store); ok && s2.Addr == ssa.Value(st) {
+									walk(s2.Val, depth+1)
+								}
+							}
+						}
+					}
+				case *ssa.Parameter:
+					// a helper's parameter: the arguments of its static call sites
+					h := x.Parent()
+					if h == fn {
+						return
+					}
+					for i, p := range h.Params {
+						if p != x {
+							continue
+						}
+						c.EveryCallSite(h, func(site ssa.CallInstruction) bool {
+							if i < len(site.Common().Args) {
+								walk(site.Common().Args[i], depth+1)
+							}
+							return true
+						})
+					}
+				case *ssa.Call:
+					cn := CalleeName(x)
+					if b, ok := x.Call.Value.(*ssa.Builtin); ok {
+						_ = b
+						for _, a := range x.Call.Args {
+							walk(a, depth+1)
+						}
+						return
+					}
+					if callee := x.Call.StaticCallee(); callee != nil && callee.Blocks != nil && FuncPkgPathOf(callee) == PkgBuilder {
+						for _, bb := range callee.Blocks {
+							if ret, ok := bb.Instrs[len(bb.Instrs)-1].(*ssa.Return); ok {
+								for _, r := range ret.Results {
+									walk(r, depth+1)
+								}
+							}
+						}
+						return
+					}
+					if _, ok := packTransformsAllowed[cn]; !ok {
+						unexpected = append(unexpected, cn)
+					}
+					for _, a := range x.Call.Args {
+						walk(a, depth+1)
+					}
+				}
+			}
+			walk(args[0], 0)
+			if !fromSetting {
+				return
+			}
+			construct := shortCallee(name) + "(" + AccessPath(args[0]) + ")"
+			if len(unexpected) == 0 {
+				c.R.Ok(rule, FuncShort(pf), construct, c.pos(ci.Pos()), "the setting reaches the packer through concatenation/conversion and reviewed transformations only", true)
+			} else {
+				sort.Strings(unexpected)
+				c.R.Bad(rule, FuncShort(pf), construct, c.pos(ci.Pos()), "the packed value passes through "+strings.Join(unexpected, ", ")+" on its way from the setting: it is no longer the configured value")
+			}
+		})
 	}
 }
